@@ -125,6 +125,14 @@ def to_form(trajs, form, rng):
         return out
     if form == 'statetraj':
         return mh.StateTraj(as_arrays(trajs, rng))
+    if form == 'lumped_statetraj' and all(len(t) > 0 for t in trajs):
+        # a lumped object whose MACROstate trajectories are these (two microstates under every macrostate): for everything that works on the state
+        # trajectory (coring, md waiting times / paths, similarity, iteration) it must behave like the plain trajectories
+        macro = [np.array(t, dtype=np.int64) for t in trajs]
+        occ = sorted({x for t in trajs for x in t})
+        rank = {x: k for k, x in enumerate(occ)}
+        micro = [np.array([2 * rank[x] + (i % 2) for i, x in enumerate(t)], dtype=np.int64) for t in trajs]
+        return mh.LumpedStateTraj(macro, micro)
     return as_arrays(trajs, rng)
 
 
@@ -158,6 +166,11 @@ def special_sets(rng):
     c = list(range(-100, 101)) + [rng.randint(-100, 100) for _ in range(60)] + list(range(100, -101, -1))
     yield [c], 'narrow_arrays', 'contiguous_wide_int8'
     yield [c[:150], c[150:]], 'narrow_arrays', 'contiguous_wide_int8'
+    # the FIRST array is the narrowest (int8), a later one needs 16 bits; contiguous 0-based and 1-based alphabets (the common dtype is not the first one's)
+    first = [rng.randrange(90) for _ in range(40)]
+    later = list(range(140)) + [rng.randrange(140) for _ in range(30)]
+    yield [first, later], 'per_array_narrow', 'narrow_first'
+    yield [[x + 1 for x in first], [x + 1 for x in later], [1, 2, 1]], 'per_array_narrow', 'narrow_first'
 
 
 # --------------------------------------------------------------------------- matrices (C04, C14)
